@@ -301,7 +301,11 @@ def gen_stress_scenario(rng):
     if rng.random() < 0.85:
         threads.append([{"op": "ddelete", "a": a, "b": b}])
     for f in free[:rng.randrange(1, 4)]:
-        threads.append([{"op": "dwrite", "start": f, "n": rng.choice([1, 2]), "chunks": 1, "commits": "end"}])
+        threads.append([{"op": "dwrite", "start": f, "n": rng.choice([1, 2]), "chunks": 1, "commits": "end",
+                         "noend": rng.random() < 0.5}])
+        if rng.random() < 0.4:
+            # a second, later domain by the same thread: open (look-up of the next domain) races the others' commits
+            threads[-1].append({"op": "dwrite", "start": f + 2, "n": 1, "chunks": 1, "commits": "end", "noend": True})
     if len(threads) < 2:
         threads.append([{"op": "dread"}])
     return {"mode": "stress", "level": "domain", "persist": rng.choice(["always", "lazy"]), "groups": 0,
